@@ -105,7 +105,7 @@ theorem ev_topic (ext : UnicodeExt) (nn : Bytes → Bytes) (n : Net) (u c t : By
     (hc : conforms n (.topic u c t) = true) :
     Eqv (tFeed ext nn n.view (serverStep n (.topic u c t)).2) (serverStep n (.topic u c t)).1.view := by
   simp only [conforms, Bool.and_eq_true] at hc
-  obtain ⟨⟨huc, _⟩, _⟩ := hc
+  obtain ⟨huc, _⟩ := hc
   obtain ⟨hu, hcok⟩ := onChan_user hi huc
   obtain ⟨x, hx⟩ := (AL.has_true_iff _ _).1 hu
   obtain ⟨hux, hxi, hxh, _⟩ := hi.users_ok u x hx
